@@ -12,8 +12,8 @@ import json
 r=json.load(open('seeded/results.json')).get('$id',{}).get('checks',{})
 print(' '.join(k for k in r if not k.startswith('_')))")
   [ -z "$props" ] && continue
-  if ! git -C /repo apply --check $d/patch.diff 2>/dev/null; then echo "patch does not apply to current /repo HEAD" > $d/official.txt; continue; fi
-  git -C /repo apply $d/patch.diff
+  if ! git -C /repo apply --check /verif/$d/patch.diff 2>/dev/null; then echo "patch does not apply to current /repo HEAD" > $d/official.txt; continue; fi
+  git -C /repo apply /verif/$d/patch.diff
   : > $d/official.tmp
   for p in $props; do
     out=$(./check $p --tier quick 2>&1 | grep -v "^KNOWN-FINDING"); rc=$?
